@@ -244,6 +244,13 @@ def time_description(case, mpi):
 TYPES = ('niter', 'residual_post_step', 'restart', 'dt', 'u')
 
 
+def op_budget(stats_serial, nranks):
+    """count-based budget of MPI calls for the simulated run: 3000 calls per rank and per step attempt of the serial emulation
+    (observed maximum on the unchanged tree: < 100); a run that exceeds it does not terminate like the serial one"""
+    attempts = len([k for k in stats_serial if k.type == 'niter'])
+    return 3000 * nranks * (attempts + 5)
+
+
 def summarize(stats_list):
     merged = {}
     for s in stats_list:
@@ -333,7 +340,7 @@ def prop_time(case, r):
     uend_s, stats_s = ctrl.run(u0=u0, t0=0.0, Tend=Tend)
     ser = summarize([stats_s])
 
-    world = MPI.World(P, decisions=case['decisions'], seed=case['seed'], policy=case['policy'])
+    world = MPI.World(P, decisions=case['decisions'], seed=case['seed'], policy=case['policy'], max_ops=op_budget(stats_s, P))
 
     def rank_main(rank, comm):
         d, cp = time_description(case, mpi=True)
@@ -350,6 +357,9 @@ def prop_time(case, r):
         r.nontrivial([P, case['levels'], case['predict'], case['jac'], case['all_to_done'], case['nsteps'], case['restol'], bool(case.get('script')), case['decisions'][:20], case['seed'], case['policy']])
     for tag, msg in world.violations:
         r.fail(f'mpi-{tag}', msg)
+    if world.budget_exhausted:
+        r.fail('mpi-no-termination', f'the serial emulation finished after {len([k for k in stats_s if k.type == "niter"])} step attempts, the MPI run was stopped after {world.max_ops} MPI calls')
+        return
     if world.timed_out:
         r.discard('simulation exceeded its wall-clock budget (inconclusive, never a verdict)')
         return
@@ -420,7 +430,7 @@ def prop_nodes(case, r):
     r.label(sw, case['residual_type'], 'coll-update' if case['coll_update'] else 'last-node', f'ranks{M}', f'levels{case.get("levels", 1)}', 'adaptivity' if case.get('adapt') else 'fixed-dt')
 
     levels = case.get('levels', 1)
-    per_level = (lambda X: [X, 0.7 * X]) if levels == 2 else (lambda X: X)
+    per_level = (lambda X: [X * f for f in (1.0, 0.7, 0.5)[:levels]]) if levels >= 2 else (lambda X: X)
 
     def description(comm):
         sp = {'num_nodes': M, 'quad_type': case['quad_type'], 'QI': case['QI'], 'initial_guess': case['initial_guess'], 'do_coll_update': case['coll_update']}
@@ -441,7 +451,7 @@ def prop_nodes(case, r):
             'problem_class': pc, 'problem_params': pp, 'sweeper_class': sc, 'sweeper_params': sp, 'convergence_controllers': cc,
             'level_params': {'dt': case['dt'], 'restol': case['restol'], 'residual_type': case['residual_type']}, 'step_params': {'maxiter': case['maxiter']},
         }  # fmt: skip
-        if levels == 2:
+        if levels >= 2:
             d['space_transfer_class'] = nocoarse
             if comm is not None:
                 d['base_transfer_class'] = base_transfer_MPI
@@ -455,7 +465,7 @@ def prop_nodes(case, r):
     u0[:] = np.resize(np.array(case['u0'], dtype=float), u0.shape)
     uend_s, stats_s = ctrl.run(u0=u0, t0=0.0, Tend=Tend)
     ser = summarize([stats_s])
-    world = MPI.World(M, decisions=case['decisions'], seed=case['seed'], policy=case['policy'])
+    world = MPI.World(M, decisions=case['decisions'], seed=case['seed'], policy=case['policy'], max_ops=op_budget(stats_s, M))
 
     def rank_main(rank, comm):
         c = controller_nonMPI(num_procs=1, controller_params=cparams(), description=description(comm))
@@ -470,6 +480,9 @@ def prop_nodes(case, r):
         r.nontrivial([sw, M, case['QI'], case['residual_type'], case['coll_update'], case['nsteps'], case.get('levels', 1), case.get('adapt'), case['decisions'][:20], case['seed']])
     for tag, msg in world.violations:
         r.fail(f'mpi-{tag}', msg)
+    if world.budget_exhausted:
+        r.fail('mpi-no-termination', f'the serial emulation finished after {len([k for k in stats_s if k.type == "niter"])} step attempts, the MPI run was stopped after {world.max_ops} MPI calls')
+        return
     if world.timed_out:
         r.discard('simulation exceeded its wall-clock budget (inconclusive, never a verdict)')
         return
@@ -493,7 +506,7 @@ def node_cases(draw):
     M = draw(st.sampled_from([1, 2, 2, 3, 3, 4, 4]))
     n = draw(st.integers(1, 3))
     cu = draw(st.booleans()) if sw == 'implicit' else False
-    levels = draw(st.sampled_from([1, 1, 2]))
+    levels = draw(st.sampled_from([1, 1, 2, 2, 3]))
     adapt = draw(st.sampled_from([None, None, 1e-3, 1e-5]))
     case = {
         'sweeper': sw, 'num_nodes': M, 'n': n, 'B': draw(S.mat(n)), 'B2': draw(S.mat(n)), 'g': draw(S.forcing(n)), 'u0': draw(S.vec(n, 0.2, 2.0)),
@@ -543,7 +556,7 @@ def prop_spacetime(case, r):
     u0[:] = np.resize(np.array(case['u0'], dtype=float), u0.shape)
     uend_s, stats_s = ctrl.run(u0=u0, t0=0.0, Tend=Tend)
     ser = summarize([stats_s])
-    world = MPI.World(Pt * M, decisions=case['decisions'], seed=case['seed'], policy=case['policy'])
+    world = MPI.World(Pt * M, decisions=case['decisions'], seed=case['seed'], policy=case['policy'], max_ops=op_budget(stats_s, Pt * M))
 
     def rank_main(rank, comm):
         # ranks are laid out node-major: rank = time_rank * M + node_rank
@@ -561,6 +574,9 @@ def prop_spacetime(case, r):
         r.nontrivial([sw, Pt, M, case['QI'], case['jac'], case['all_to_done'], case['nsteps'], case['restol'], case['decisions'][:20], case['seed']])
     for tag, msg in world.violations:
         r.fail(f'mpi-{tag}', msg)
+    if world.budget_exhausted:
+        r.fail('mpi-no-termination', f'the serial emulation finished after {len([k for k in stats_s if k.type == "niter"])} step attempts, the MPI run was stopped after {world.max_ops} MPI calls')
+        return
     if world.timed_out:
         r.discard('simulation exceeded its wall-clock budget (inconclusive, never a verdict)')
         return
